@@ -17,7 +17,21 @@ def main():
     mod = importlib.import_module("p_" + a.pid.lower())
     if a.replay:
         sys.exit(mod.replay(a.replay))
-    sys.exit(mod.run(a.tier))
+    # An internal error of the machinery is not a verdict about the property: retry once (transient interference, e.g. a
+    # concurrent build), then report it as what it is (exit 2, no VIOLATION line).
+    import traceback
+    for attempt in (1, 2):
+        try:
+            rc = mod.run(a.tier)
+        except SystemExit:
+            raise
+        except Exception:
+            traceback.print_exc()
+            print("CHECK-ERROR property=%s attempt=%d: internal error of the checking machinery (see traceback)" % (a.pid, attempt), file=sys.stderr)
+            rc = 2
+            continue
+        break
+    sys.exit(rc)
 
 
 if __name__ == "__main__":
